@@ -71,7 +71,8 @@ ASSUMPTIONS = [
     'the scratch directory prefix differs between implementation and model only in its last component (no dot, no slash)',
     'pickle.dump(obj, stream) and pickle.dumps(obj) produce the same bytes (default protocol); objects carry no shared '
     'identity except CPython singletons',
-    'struct formats are an explicit byte order with one of B H I Q',
+    'struct length-prefix formats: byte order < > ! = @ or none with one of B H I L Q b h i l q on a little-endian machine; '
+    'for signed formats the generated lengths stay below 2^(8w-1)',
 ]
 TRUSTED = ['translator/kernels/c08.py (FILE_ENDINGS table, get_codec, suffix test, part-name format, chunker loops)',
            'gzip/bz2/lzma/zipfile/tarfile and pickle as black boxes: decompress (compress b) = b, loads (dumps x) = x '
@@ -227,8 +228,20 @@ def _rdd(sc, parts):
 def _reclen(a):
     if a is None or isinstance(a, int):
         return a
+    if len(a) == 3:
+        return a[2]          # (big_endian, width, struct format): the format the case was framed with
     be, w = a
     return ('>' if be else '<') + FMT[w]
+
+
+def fmt_descr(fmt):
+    """(big_endian, width, fmt) of a struct length-prefix format, from the struct module itself."""
+    w = struct.calcsize(fmt)
+    be = struct.pack(fmt, 1)[-1] == 1 if w > 1 else False
+    return (be, w, fmt)
+
+
+STRUCT_FORMATS = [bo + c for bo in ('<', '>', '!', '=', '@', '') for c in 'BHILQbhilq']
 
 
 class _Gate:
@@ -511,7 +524,8 @@ def oracle(case, result):
         recs = dict(meta)
         want = [r for n in names for r in recs[n[2:] if n.startswith('./') and n not in recs else n]]
         if flat != want:
-            return (f'binaryRecords:{"fixed" if isinstance(arg, int) else "prefixed"}',
+            return (f'binaryRecords:{"fixed" if isinstance(arg, int) else "prefixed"}'
+                    + (f':{arg[2]}' if isinstance(arg, tuple) and len(arg) == 3 else ''),
                     f'{path!r} recordLength={arg!r}: {flat!r}, expected the original records {want!r}')
     return None
 
@@ -733,6 +747,66 @@ def edge_shape_cases(rng, tier):
     return cases
 
 
+def struct_format_cases(rng, tier):
+    """binaryRecords with EVERY struct length-prefix format (byte order < > ! = @ none x B H I L Q b h i l q):
+    records of the boundary lengths the field can hold (0, 1, 2, 127, 128, 255, 256, 257), a trailing empty
+    record included; exact framing by struct.pack(fmt, len) + payload."""
+    cases = []
+    for k, fmt in enumerate(STRUCT_FORMATS):
+        be, w, _ = fmt_descr(fmt)
+        signed = fmt[-1].islower()
+        top = (1 << (8 * w - (1 if signed else 0))) - 1
+        lengths = [n for n in (0, 1, 2, 127, 128, 255, 256, 257) if n <= top]
+        variants = [lengths + [0], [1], [2, 0, 0], rng.sample(lengths, min(3, len(lengths))) + [rng.choice([0, 3])]]
+        if tier == 'quick':
+            variants = [variants[0], variants[1 + k % 3]]
+        for lens in variants:
+            recs = [gen_record(rng, n) for n in lens]
+            name = f'{BASE}/fmt' + rng.choice(['', '.bin', '.gz'])
+            cases.append(('records', [(name, b''.join(struct.pack(fmt, len(r)) + r for r in recs))], name,
+                          fmt_descr(fmt), [(name, recs)]))
+    return cases
+
+
+def wide_line(width_char, offset, total):
+    """A line whose utf8 form has the wide character starting at byte `offset` and is `total` bytes long at least."""
+    return 'a' * offset + width_char + 'b' * max(0, total - offset - len(width_char.encode('utf8')))
+
+
+WIDE = ['\u00e9', '\u4e2d', '\U0001f600']      # 2-, 3-, 4-byte utf8
+
+
+def big_file_cases(rng, tier, budget):
+    """Data files larger than 8192 / 16384 / 65536 bytes with multi-byte characters around every multiple of
+    8192 bytes of the uncompressed file: a single wide character swept over the offsets 8190..8194 (and around
+    16384, 65536 for the larger sizes), and dense non-ASCII text."""
+    cases = []
+    exts = EXTS + ['.txt']
+    k = 0
+    for size, boundary in ((8192, 8192), (16384, 16384), (65536, 65536)):
+        for ch in WIDE:
+            for off in range(boundary - 2, boundary + 3):
+                k += 1
+                line = wide_line(ch, off, size + 40)
+                # a second wide character around the first multiple of 8192 too
+                if boundary > 8192:
+                    line = line[:8190] + ch + line[8190 + 1:]
+                for ext in (exts if tier != 'quick' else [exts[k % len(exts)], exts[(k + 5) % len(exts)]]):
+                    for parts in ([[line]], [['x'], [line, 'y'], [ch + line]]):
+                        kind_ = 'text' if (k + len(parts)) % 3 else 'textwhole'
+                        cases.append((kind_, [], f'{BASE}/big{ext}', parts, rng.choice([None, 3])))
+    for ext in exts:       # dense non-ASCII text: characters of every width at every alignment
+        for n in (9000, 40000):
+            line = ''.join(rng.choice(UNI + 'ab') for _ in range(n))
+            if _has_break(line) or not _scalar(line):
+                continue
+            cases.append(('text', [], f'{BASE}/dense{ext}', [[line[:100], line], [line[::-1]]], None))
+            cases.append(('textwhole', [], f'{BASE}/dense{ext}', [[line]], None))
+    if budget is not None and len(cases) > budget:
+        cases = rng.sample(cases, budget)
+    return cases
+
+
 def concurrency_cases(rng, tier):
     """Multi-partition saves on thread pools.  cfg = (pool size, max_retries or None, forced overlap inside
     Local.dump, barrier in an upstream mapPartitions).  Partitions have pairwise different contents and lengths."""
@@ -888,6 +962,13 @@ def generate(rng, tier):
     cases += special_cases(rng, tier)
     cases += edge_shape_cases(rng, tier)
     cases += concurrency_cases(rng, tier)
+    cases += struct_format_cases(rng, tier)
+    # a handful of data files just over io.DEFAULT_BUFFER_SIZE with a wide character across byte 8192
+    for j, ch in enumerate(WIDE):
+        for ext in (('', '.gz') if tier == 'quick' else ('', '.gz', '.zip', '.tar.bz2', '.txt')):
+            off = 8192 - 1 - j % 2
+            cases.append(('text' if j % 2 else 'textwhole', [], f'{BASE}/b8k{ext}',
+                          [[wide_line(ch, off, 8200)]] if j != 1 else [['x'], [wide_line(ch, off, 8200), 'y']], None))
     cases += read_cases(rng, tier)
     cases += record_cases(rng, tier)
     cases += codec_cases(rng, tier)
@@ -949,6 +1030,28 @@ def extra_checks(rng, tier, workdir):
     """Oracle-only: large multi-partition saves on thread pools WITHOUT instrumentation (natural overlap of the
     writes; a barrier in an upstream mapPartitions makes the tasks start together).  Too large for the
     correspondence (the model would only repeat the sequential result)."""
+    # large data files (oracle only: too large for the model's literals) -- round trip through every codec
+    for case in big_file_cases(rng, tier, 140 if tier == 'quick' else None):
+        r = impl(case)
+        o = oracle(case, r)
+        if o is not None:
+            small = case[:3] + ([[x[:30] + '...' if len(x) > 60 else x for x in p] for p in case[3]],) + case[4:]
+            yield (o[0] + ':big-file', f'{case[0]} to {case[2]!r}: a data file larger than 8192 bytes with multi-byte '
+                   f'characters around multiples of 8192 (abbreviated: {small!r})', o[1][:600], case)
+            break
+    # records of the largest lengths a two-byte field can hold, and beyond (oracle only)
+    for fmt in STRUCT_FORMATS:
+        be, w, _ = fmt_descr(fmt)
+        top = (1 << (8 * w - (1 if fmt[-1].islower() else 0))) - 1
+        lens = [n for n in (255, 256, 32767, 32768, 65535, 65536, 70000) if n <= top][-3:] + [0]
+        recs = [gen_record(rng, n) for n in lens]
+        name = f'{BASE}/bigrec'
+        case = ('records', [(name, b''.join(struct.pack(fmt, len(r)) + r for r in recs))], name, fmt_descr(fmt), [(name, recs)])
+        r = impl(case)
+        o = oracle(case, r)
+        if o is not None:
+            yield (o[0] + ':large-records', f'binaryRecords(recordLength={fmt!r}) with records of lengths {lens}', o[1][:300], case)
+            break
     trials = 1 if tier == 'quick' else 4
     lines = 1500 if tier == 'quick' else 4000
     for ext in ('', '.gz'):
